@@ -369,6 +369,9 @@ This decides `no new unaudited panic/recursion/loop site`, the enumerated necess
     loops(m, ctx);
     withdraw(m, ctx);
     dead_guard(m, ctx);
+    // the audit entry of inner_name's format_ident! ("parent is a generated type name") is tied to the one caller that builds
+    // the parent from a string it splits itself
+    crate::rules::c07::nested_choice_ident(m, ctx, "C08.ident");
     acyclic(m, ctx);
     slice_totality(m, ctx);
     minmax_guard(m, ctx);
@@ -406,7 +409,12 @@ fn value_cycle(m: &Model, ctx: &mut Ctx) {
     // `S ::= S` is what the scope of a template holds when the actual parameter is named like the dummy reference (`Foo {S}`
     // for `Foo {S} ::= ..`): module-level cycles are removed before linking, this one is made afterwards
     let x_value = Val::Ctor("Value".into(), vec![named("ToplevelValueDefinition", vec![("name", Val::Str("x".into())), ("associated_type", self_ref("S")), ("value", Val::Ctor("Integer".into(), vec![Val::int(5)], Map::new()))])], Map::new());
-    let defs: Vec<(&str, Val)> = vec![("T", type_tld("T", int_ty.clone())), ("U", type_tld("U", int_ty.clone())), ("b", value_tld("b", "c")), ("c", value_tld("c", "b")), ("S", type_tld("S", self_ref("S"))), ("x", x_value)];
+    // the same references written with a module qualifier (`q U ::= M.q`, `qb U ::= M.qc  qc U ::= M.qb`): a visited list that
+    // only follows unqualified references hands the qualified one back, and the caller substitutes it for ever
+    let qualified = |to: &str| named("ElsewhereDeclaredValue", vec![("identifier", Val::Str(to.into())), ("parent", Val::none()), ("module", Val::some(Val::Str("M".into())))]);
+    let qvalue_tld = |n: &str, to: &str| Val::Ctor("Value".into(), vec![named("ToplevelValueDefinition", vec![("name", Val::Str(n.into())), ("associated_type", Val::Ctor("ElsewhereDeclaredType".into(), vec![named("DeclarationElsewhere", vec![("identifier", Val::Str("U".into())), ("parent", Val::none()), ("module", Val::none())])], Map::new())), ("value", qualified(to))])], Map::new());
+    let defs: Vec<(&str, Val)> = vec![("T", type_tld("T", int_ty.clone())), ("U", type_tld("U", int_ty.clone())), ("b", value_tld("b", "c")), ("c", value_tld("c", "b")), ("S", type_tld("S", self_ref("S"))), ("x", x_value),
+        ("q", qvalue_tld("q", "q")), ("qb", qvalue_tld("qb", "qc")), ("qc", qvalue_tld("qc", "qb"))];
     let depth = std::cell::Cell::new(0usize);
     let hook = |_: &Evaluator, name: &str, a: &[Val]| -> Option<Result<Val, String>> {
         match (name, a.first()) {
@@ -445,6 +453,8 @@ fn value_cycle(m: &Model, ctx: &mut Ctx) {
     let scenarios: Vec<(&str, Val, Val, Val)> = governors.into_iter().map(|(l, t, n)| (l, t, n, reference("b"))).chain(vec![
         ("scope-self-reference:value-reference", self_ref("S"), Val::none(), reference("x")),
         ("scope-self-reference:literal", self_ref("S"), Val::none(), Val::Ctor("Integer".into(), vec![Val::int(5)], Map::new())),
+        ("qualified-self-reference (q U ::= M.q, f T DEFAULT q)", Val::Ctor("ElsewhereDeclaredType".into(), vec![named("DeclarationElsewhere", vec![("identifier", Val::Str("T".into())), ("parent", Val::none()), ("module", Val::none())])], Map::new()), Val::none(), reference("q")),
+        ("qualified-cycle (qb U ::= M.qc, qc U ::= M.qb, f T DEFAULT qb)", Val::Ctor("ElsewhereDeclaredType".into(), vec![named("DeclarationElsewhere", vec![("identifier", Val::Str("T".into())), ("parent", Val::none()), ("module", Val::none())])], Map::new()), Val::none(), reference("qb")),
     ]).collect();
     for (label, ty, type_name, value) in scenarios {
         let key = format!("cyclic-value-references:{}", label);
